@@ -536,9 +536,19 @@ CHECKS += [
          technique="lifted execution of default.qubit state preparation on z3 amplitude terms; z3 QF_NRA entry-wise equality proofs"),
 ]
 
+CHECKS += [
+    dict(property_id="C06", category="other", engine=E1,
+         text="Partial (symbolic parameters): for 38 operator builders (parametrised gates, controlled / adjoint / power wrappers, scalar products, products, sums, linear combinations) with "
+              "SYMBOLIC parameters: bind_new_parameters(builder(p), builder(p').parameters) with p' the rotated symbols has exactly the new parameters (term by term), unchanged wires / type / "
+              "hyperparameter keys / control values, and z3 proves its matrix equal to builder(p')'s for all values, the original left unchanged; copy.copy, copy.deepcopy, _flatten/_unflatten and "
+              "pennylane.pytrees round trips keep the matrix for all parameter values and the structure, deep copies share no parameter arrays; the same through expval / var of the Hermitian builders.",
+         note=PROOF_NOTE + " Category 'other' (partial): pickle (C-level), JAX pytrees and capture primitives (JAX tracing), batched parameters and operators outside the listed builders are outside. "
+              "A hand-made mutant (composite operands bound from the wrong end of the parameter list) is reported by 14 obligations.",
+         technique="lifted execution of bind_new_parameters / copies / pytree round trips on z3 parameter terms; z3 QF_NRA matrix-identity proofs plus structural comparisons per path"),
+]
+
 _NOT_BUILT = "claimed in DESIGN.md §4 but its solver-based check is not built yet in this tree"
 NOT_APPLICABLE_REASONS = {
-    "C06": "copy/pickle/pytree round-trips: object-graph identity and C-level (un)pickling; no symbolic dimension",
     "C11": "declared resources depend only on discrete configurations that must each be run concretely; no symbolic dimension",
     "C14": "unitary synthesis runs through eig/svd/det and arctan2/arccos on arbitrary unitaries (LAPACK, inverse transcendental functions)",
     "C15": "Clifford+T approximation: float/mpmath grid search with input-dependent loops; epsilon-bound on a numerically produced word",
